@@ -413,7 +413,7 @@ package interp
 
 //@ action *
 //@   mode bv64
-//@   props C11 C19
+//@   props C11 C19 C20
 //@   requires yylex is *lexer && yylex.(*lexer) != nil
 // the parser goroutine reduces with the lexer's mutex free (only Lex and
 // Error take it, and both release it before they return)
